@@ -4,6 +4,7 @@
 From Coq Require Import List Bool NArith.
 Import ListNotations.
 Require Adj AdjGen TableAdj GenProofs_RevMeas.
+Require Pauli Sem Refine Run FrameRun RevTrack.
 Require Import Stab Spec SpecProofs GF2.
 
 (* for EVERY assignment, a detector's value is the XOR of the values of the measurement results it names *)
@@ -31,3 +32,12 @@ Proof. exact GenProofs_RevMeas.revmeas_routines_match_adjgen. Qed.
 Theorem C18_analyzer_measure_reset_routines_match : GenProofs_RevMeas.ea_revmeas_all_ok = true.
 Proof. exact GenProofs_RevMeas.analyzer_measure_reset_routines_match_adjgen. Qed.
 Print Assumptions C18_adjoint_all_gates. Print Assumptions C18_forms_are_affine. Print Assumptions C18_adjoint_partial.
+
+(* The matcher shares the analyzer's reverse tracker.  Whole circuits: injecting the Pauli E in front of the rest l of a run flips
+   a detector (flags d, tracker check passed) iff E anticommutes with the tracker's sensitivity there - for every randomisation. *)
+Theorem C18_injected_pauli_flips_exactly_the_anticommuting_detectors :
+  forall (n : nat) (l : list (Run.op * option bool)) (E : Pauli.pauli) (zs d : list bool),
+  Forall (fun x => FrameRun.ok_op n (fst x)) l -> Refine.wf n E -> RevTrack.gauge_ok n l d ->
+  RevTrack.fparz E zs l d = Sem.acom E (RevTrack.revtrack n l d).
+Proof. exact RevTrack.error_flips_iff_anticommutes. Qed.
+Print Assumptions C18_injected_pauli_flips_exactly_the_anticommuting_detectors.
